@@ -1,6 +1,7 @@
 """Per-property check definitions: which stages run at which tier, with which bounds."""
 import functools, json
 import stages as S
+import mm as M
 from stages import BASE, CONV, CONV_CORE, BORROW, UNIQ, COW, UNWRAP
 
 SIZED_MODULES = ["Triomphe.tla", "MC_Sized.tla"]
@@ -17,6 +18,20 @@ def sized(prop, tier, name, ops, nslots, nblocks, frames, hows=("new", "newB", "
     return stage(S.graph_replay, prop, tier, name, "sized", "MC_Sized.tla", SIZED_MODULES, cfg, nslots)
 
 
+def mm(prop, tier, name, configs):
+    return stage(M.mm_stage, prop, tier, name, configs)
+
+
+def c02(tier, seed):
+    ops = ["clone", "read", "drop"]
+    if tier == "quick":
+        return [mm("C02", tier, "mm_clone_drop_q", [("c02_2x3", ops, 2, 3, 2, False), ("c02_3x2", ops, 3, 2, 1, False),
+                                                     ("c02_2x4", ops + ["count"], 2, 4, 1, False)])]
+    return [mm("C02", tier, "mm_clone_drop_t", [("c02_2x3", ops, 2, 3, 2, False), ("c02_3x3", ops, 3, 3, 1, False),
+                                                 ("c02_4x2", ops, 4, 2, 1, False), ("c02_2x5", ops, 2, 5, 2, False),
+                                                 ("c02_3x2h", ops + ["count"], 3, 2, 1, True)])]
+
+
 def c01(tier, seed):
     if tier == "quick":
         return [sized("C01", tier, "sized_life_q", BASE + CONV + BORROW + ["TryUnique"], 3, 2, 1),
@@ -27,9 +42,13 @@ def c01(tier, seed):
 
 def c03(tier, seed):
     ops = BASE + CONV_CORE + UNIQ + ["Borrow", "Enter", "Exit", "TryUnwrap", "MakeMut"]
+    mops = ["clone", "read", "drop", "get_mut"]
     if tier == "quick":
-        return [sized("C03", tier, "sized_uniq_q", ops, 3, 2, 1)]
-    return [sized("C03", tier, "sized_uniq_t", ops + ["Unsize", "IntoRawDyn", "FromRawDyn"], 4, 2, 1)]
+        return [sized("C03", tier, "sized_uniq_q", ops, 3, 2, 1),
+                mm("C03", tier, "mm_uniq_q", [("c03_2x3", mops, 2, 3, 2, False), ("c03_3x2", mops, 3, 2, 1, False)])]
+    return [sized("C03", tier, "sized_uniq_t", ops + ["Unsize", "IntoRawDyn", "FromRawDyn"], 4, 2, 1),
+            mm("C03", tier, "mm_uniq_t", [("c03_2x4", mops, 2, 4, 2, False), ("c03_3x3", mops, 3, 3, 1, False),
+                                          ("c03_3x2h", mops, 3, 2, 1, True)])]
 
 
 def c04(tier, seed):
@@ -41,16 +60,22 @@ def c04(tier, seed):
 
 def c08(tier, seed):
     ops = BASE + CONV_CORE + COW + ["Borrow", "Enter", "Exit", "GetMut"]
+    mops = ["clone", "read", "drop", "make_mut"]
     if tier == "quick":
-        return [sized("C08", tier, "sized_cow_q", ops, 3, 3, 1, hows=("new", "newB"))]
-    return [sized("C08", tier, "sized_cow_t", ops, 4, 3, 1, hows=("new", "newB"))]
+        return [sized("C08", tier, "sized_cow_q", ops, 3, 3, 1, hows=("new", "newB")),
+                mm("C08", tier, "mm_cow_q", [("c08_2x3", mops, 2, 3, 2, False), ("c08_3x2", mops, 3, 2, 1, False)])]
+    return [sized("C08", tier, "sized_cow_t", ops, 4, 3, 1, hows=("new", "newB")),
+            mm("C08", tier, "mm_cow_t", [("c08_2x4", mops, 2, 4, 2, False), ("c08_3x3", mops, 3, 3, 1, False)])]
 
 
 def c09(tier, seed):
     ops = BASE + CONV_CORE + UNWRAP + ["TryUnique", "Borrow", "Enter", "Exit"]
+    mops = ["try_unwrap", "unwrap_or_clone", "drop", "get_mut", "clone"]
     if tier == "quick":
-        return [sized("C09", tier, "sized_unwrap_q", ops, 3, 2, 1)]
-    return [sized("C09", tier, "sized_unwrap_t", ops, 4, 2, 1)]
+        return [sized("C09", tier, "sized_unwrap_q", ops, 3, 2, 1),
+                mm("C09", tier, "mm_unwrap_q", [("c09_2x3", mops, 2, 3, 2, False), ("c09_3x2", mops, 3, 2, 1, False)])]
+    return [sized("C09", tier, "sized_unwrap_t", ops, 4, 2, 1),
+            mm("C09", tier, "mm_unwrap_t", [("c09_2x4", mops, 2, 4, 2, False), ("c09_3x3", mops, 3, 3, 1, False)])]
 
 
 def c12(tier, seed):
@@ -67,13 +92,27 @@ GRAPH_ASSUME = [
     "single-threaded histories; schedules are decided by the ArcMM stages",
 ]
 
+MM_ASSUME = [
+    "memory model: promise-free RC11 fragment (release/acquire/relaxed views, release sequences through RMWs, stale loads); SeqCst treated as AcqRel",
+    "protocol constants are extracted from the running implementation through the cfg(triomphe_verif) tracer; a count access that bypasses the traced atomic type is invisible",
+    "exhaustive only within the thread/operation bounds of each configuration",
+]
+
+
+def any_replay(p, v):
+    if "h" in v:
+        return S.replay_graph_violation(p, v)
+    return M.replay_mm(p, v)
+
+
 PROPS = {
-    "C01": {"level": "model_checking", "stages": c01, "assumptions": GRAPH_ASSUME, "replay": lambda p, v: S.replay_graph_violation(p, v)},
-    "C03": {"level": "model_checking", "stages": c03, "assumptions": GRAPH_ASSUME, "replay": lambda p, v: S.replay_graph_violation(p, v)},
-    "C04": {"level": "model_checking", "stages": c04, "assumptions": GRAPH_ASSUME, "replay": lambda p, v: S.replay_graph_violation(p, v)},
-    "C08": {"level": "model_checking", "stages": c08, "assumptions": GRAPH_ASSUME, "replay": lambda p, v: S.replay_graph_violation(p, v)},
-    "C09": {"level": "model_checking", "stages": c09, "assumptions": GRAPH_ASSUME, "replay": lambda p, v: S.replay_graph_violation(p, v)},
-    "C12": {"level": "model_checking", "stages": c12, "assumptions": GRAPH_ASSUME, "replay": lambda p, v: S.replay_graph_violation(p, v)},
+    "C02": {"level": "model_checking", "stages": c02, "assumptions": MM_ASSUME, "replay": any_replay},
+    "C01": {"level": "model_checking", "stages": c01, "assumptions": GRAPH_ASSUME, "replay": any_replay},
+    "C03": {"level": "model_checking", "stages": c03, "assumptions": GRAPH_ASSUME + MM_ASSUME, "replay": any_replay},
+    "C04": {"level": "model_checking", "stages": c04, "assumptions": GRAPH_ASSUME, "replay": any_replay},
+    "C08": {"level": "model_checking", "stages": c08, "assumptions": GRAPH_ASSUME + MM_ASSUME, "replay": any_replay},
+    "C09": {"level": "model_checking", "stages": c09, "assumptions": GRAPH_ASSUME + MM_ASSUME, "replay": any_replay},
+    "C12": {"level": "model_checking", "stages": c12, "assumptions": GRAPH_ASSUME, "replay": any_replay},
 }
 
 
